@@ -11,12 +11,12 @@ import (
 )
 
 func (fc *fnCtx) specCtxFor(st *State, fr *frame) *specCtx {
-	sc := &specCtx{fc: fc, st: st, heap: st.heap, now: st.now, old: fr.entry, oldNow: fr.entryT, vars: map[string]Val{}}
+	sc := &specCtx{fc: fc, st: st, heap: st.heap, now: st.now, old: fr.entry, oldNow: fr.entryT, vars: map[string]Val{}, params: map[string]Val{}}
 	if i := strings.Index(fr.key, "."); i >= 0 {
 		sc.pkg = fr.key[:i]
 	}
 	for k, v := range fr.params {
-		sc.vars[k] = v
+		sc.params[k] = v
 	}
 	if fr.this != nil {
 		sc.vars["this"] = *fr.this
@@ -87,6 +87,9 @@ func (e *Engine) VerifyFunc(key string) {
 			}
 		} else {
 			fr.params[p.Name()] = v
+			if nonNilParam(p.Type()) && !fc.eff.flags["nilok"] {
+				st.pc = append(st.pc, not(eq(v.T, "nil")))
+			}
 		}
 	}
 	for _, fv := range fn.FreeVars {
@@ -178,7 +181,7 @@ func (fc *fnCtx) specCtxForClause(st *State, fr *frame, c effClause) *specCtx {
 			continue
 		}
 		if i < len(c.params) && c.params[i] != "" && c.params[i] != "_" {
-			sc.vars[c.params[i]] = fr.params[p.Name()]
+			sc.params[c.params[i]] = fr.params[p.Name()]
 		}
 		i++
 	}
@@ -530,4 +533,18 @@ func (e *Engine) axiomText(fc *fnCtx, st *State, body string) string {
 		fmt.Fprintf(&sb, "(assert %s) ; axiom %s\n", e.axCache[n].text, n)
 	}
 	return sb.String()
+}
+
+// nonNilParam: parameters of a named, non-empty interface type are assumed
+// non-nil at entry and must be shown non-nil at call sites (safety precondition).
+func nonNilParam(t types.Type) bool {
+	if _, ok := t.(*types.TypeParam); ok {
+		return false
+	}
+	n, ok := t.(*types.Named)
+	if !ok {
+		return false
+	}
+	i, ok := n.Underlying().(*types.Interface)
+	return ok && i.NumMethods() > 0
 }
